@@ -174,6 +174,46 @@ func main() {
 		}
 	}
 
+	// every panic( in the protocol / server packages (code reachable from network input), with the
+	// conditions of all if statements that precede or enclose it in its function ("guarded as on HEAD")
+	var panics []row
+	for _, dir := range []string{"internal/protocols", "internal/servers"} {
+		filepath.Walk(filepath.Join(*repo, dir), func(pth string, info os.FileInfo, err error) error { //nolint:errcheck
+			if err != nil || info.IsDir() || !strings.HasSuffix(pth, ".go") || strings.HasSuffix(pth, "_test.go") ||
+				strings.Contains(pth, "zz_verif") {
+				return nil
+			}
+			f, perr := parser.ParseFile(fset, pth, nil, 0)
+			if perr != nil {
+				return nil
+			}
+			rel, _ := filepath.Rel(*repo, pth)
+			for _, d := range f.Decls {
+				fn, ok := d.(*ast.FuncDecl)
+				if !ok || fn.Body == nil {
+					continue
+				}
+				var conds []string
+				ast.Inspect(fn.Body, func(n ast.Node) bool {
+					switch x := n.(type) {
+					case *ast.IfStmt:
+						conds = append(conds, exprStr(fset, x.Cond))
+					case *ast.CallExpr:
+						if id, ok := x.Fun.(*ast.Ident); ok && id.Name == "panic" {
+							g := conds
+							if len(g) > 4 {
+								g = g[len(g)-4:] // the four nearest preceding conditions
+							}
+							panics = append(panics, row{rel, funcName(fset, fn), strings.Join(g, " ; ") + " => " + exprStr(fset, x)})
+						}
+					}
+					return true
+				})
+			}
+			return nil
+		})
+	}
+
 	// handler chain of httpp.Server: `h = &handlerFilterRequests{h}` must appear, and no handler that
 	// could call the user handler may be assigned before it except those that only wrap the response
 	filterWraps := false
@@ -224,6 +264,7 @@ func main() {
 		sb.WriteString("]\n\n")
 	}
 	emitRows("makes", "every `make` with a run-time size in the inventoried functions", makes)
+	emitRows("panics", "every `panic(` in internal/protocols and internal/servers with the (up to four) nearest preceding if-conditions of its function", panics)
 	emitRows("closes", "every `close(ch)` in the inventoried functions (a channel closed twice panics)", closes)
 	if len(guards) == 3 {
 		fmt.Fprintf(&sb, "/-- RTSP handlers start with the path guard followed by `ctx.Path = ctx.Path[1:]` -/\ndef rtspGuards : Bool := %v\n",
